@@ -121,20 +121,17 @@ def proposal_store(repo, run):
             tg = st.targets if isinstance(st, ast.Assign) else [st.target]
             if any(is_self_attr(t, "dt") or is_self_attr(t, "__dt") for t in tg):
                 stores.append(st)
-    # final-step flag name: the variable set True where dt is clamped
-    flag = None
-    for st in walk_no_nested(m.loop):
-        if isinstance(st, ast.Assign) and isinstance(st.value, ast.Constant) and st.value.value is True and isinstance(st.targets[0], ast.Name):
-            sib = st._parent
-            if isinstance(sib, ast.If) and any(isinstance(x, ast.Assign) and isinstance(x.value, ast.BinOp) and m.tf in src(x.value) for x in sib.body):
-                flag = st.targets[0].id
+    fs = m.final_step()
+    flag = fs["flag"] if fs and fs.get("flag_ok") else None
     if flag is None:
         raise AnalysisError("anchor missing: the final-step flag of integrate")
     prop = [st for st in stores if isinstance(st, ast.Assign) and isinstance(st.value, ast.Name) and st.value.id == m.new_dt]
     ok = len(prop) == 1
     if ok:
+        from ..sym import path_condition, equivalent
+        pc, _ = path_condition(prop[0], m.loop)
+        ok = equivalent(pc, ("not", [("atom", flag)]))[0]
         par = prop[0]._parent
-        ok = isinstance(par, ast.If) and prop[0] in par.body and src(par.test).replace(" ", "") in ("not" + flag, "notself." + flag, flag + "==False", flag + "isFalse")
     run.judged(rid, "proposal store: %s under `%s`" % ([src(p) for p in prop], src(prop[0]._parent.test) if prop and isinstance(prop[0]._parent, ast.If) else "<no guard>"), ok=ok)
     if not ok:
         run.report("C04.4", DS, prop[0] if prop else m.loop, "the integrator's proposed step is not stored exactly once under `not %s`: after a clamped last step "
@@ -153,15 +150,9 @@ def final_step(repo, run):
                             "than the last is longer (or shorter) than the requested one", floor=1)
     m = IntegrateModel(repo)
     c = m.canon
-    call = m.step_assign.value
-    kw = {k.arg: k.value for k in call.keywords}
-    step_arg = kw.get("timestep", call.args[4] if len(call.args) > 4 else None)
-    if not isinstance(step_arg, ast.Name):
-        raise AnalysisError("integrator call has no named local step")
-    defs = [st for st in walk_no_nested(m.loop) if isinstance(st, ast.Assign) and any(isinstance(t, ast.Name) and t.id == step_arg.id for t in st.targets)]
-    clamp = next((st for st in defs if _is_remaining(m, c, st.value, sign_free=False)), None)
-    if clamp is None or not isinstance(clamp._parent, ast.If):
+    fs = m.final_step()
+    if fs is None or fs["clamp"] is None or "cond" not in fs:
         run.judged(rid, "clamp statement", ok=False)
         run.report("C04.5", DS, m.loop, "the clamp of the last step to `tf - t[counter]` was not found under a test", text="missing clamp")
         return
-    _final_predicate(run, rid, m, c, clamp._parent, rule_id="C04.5")
+    _final_predicate(run, rid, m, c, fs, rule_id="C04.5")
